@@ -929,3 +929,191 @@ def self_test():  # noqa: F811
     t = ast.parse(POSITIVE_EXAMPLES['dead_pure_updates']).body[0]
     ok['dead_pure_updates'] = bool(dead_pure_updates(t))
     return ok
+
+
+# ---------------------------------------------------------------- predicate that falls off its end
+def _boolish(e):
+    if isinstance(e, ast.Constant):
+        return isinstance(e.value, bool)
+    if isinstance(e, ast.Compare) or (isinstance(e, ast.UnaryOp) and isinstance(e.op, ast.Not)):
+        return True
+    if isinstance(e, ast.BoolOp):
+        return all(_boolish(v) for v in e.values)
+    if isinstance(e, ast.IfExp):
+        return _boolish(e.body) and _boolish(e.orelse)
+    return isinstance(e, ast.Call) and isinstance(e.func, ast.Name) and e.func.id in (
+        'all', 'any', 'isinstance', 'bool', 'callable', 'hasattr', 'issubclass')
+
+
+def is_predicate(fnode):
+    """a function that answers yes/no: at least two returns, all with a value that is a truth value by construction
+    (True/False, comparison, not, all/any/isinstance, and/or/conditional of those), at least one the literal True or False"""
+    rets = [r for r in ast.walk(fnode) if isinstance(r, ast.Return) and _owner(fnode, r)]
+    if len(rets) < 2 or any(r.value is None for r in rets):
+        return False
+    if any(isinstance(y, (ast.Yield, ast.YieldFrom)) for y in ast.walk(fnode)):
+        return False
+    return all(_boolish(r.value) for r in rets) and any(
+        isinstance(r.value, ast.Constant) and isinstance(r.value.value, bool) for r in rets)
+
+
+def _owner(fnode, node):
+    # node belongs to fnode itself, not to a nested function / lambda / class
+    stack = [(fnode, True)]
+    while stack:
+        n, top = stack.pop()
+        for c in ast.iter_child_nodes(n):
+            if c is node:
+                return True
+            if isinstance(c, (ast.FunctionDef, ast.AsyncFunctionDef, ast.Lambda, ast.ClassDef)):
+                continue
+            stack.append((c, False))
+    return False
+
+
+def predicate_falls_off(fnode):
+    """[(cfg node)] last nodes of paths on which a predicate (is_predicate) reaches its end without a return: the caller
+    gets None, i.e. "no", whatever the right answer on that path is"""
+    if not is_predicate(fnode):
+        return []
+    from .cfg import CFG
+    cfg = CFG(fnode)
+    reach = cfg.reachable(cfg.entry)
+    return [cfg.nodes[p] for p in cfg.g.predecessors(cfg.exit)
+            if p in reach and cfg.nodes[p].kind != 'return' and not (cfg.nodes[p].cont or '').startswith(('ret', 'fret'))]
+
+
+POSITIVE_EXAMPLES['predicate_falls_off'] = """
+def contains(a, b, strict=False):
+    if a.kind == b.kind:
+        if not strict:
+            return all(x in a.items for x in b.items)
+        else:
+            if not all(x in a.items for x in b.items):
+                return False
+            if a.extra or b.extra:
+                return a.extra == b.extra
+    else:
+        return False
+"""
+
+
+# ---------------------------------------------------------------- attribute of self that nothing defines
+def class_names(cnode):
+    """(names a class body / its methods define on the class or on self, dynamic?)"""
+    out, dyn = set(), False
+    for s in cnode.body:
+        if isinstance(s, (ast.FunctionDef, ast.AsyncFunctionDef, ast.ClassDef)):
+            out.add(s.name)
+        elif isinstance(s, ast.Assign):
+            out |= {n.id for t in s.targets for n in ast.walk(t) if isinstance(n, ast.Name)}
+        elif isinstance(s, ast.AnnAssign) and isinstance(s.target, ast.Name):
+            out.add(s.target.id)
+    for n in ast.walk(cnode):
+        if isinstance(n, ast.Attribute):
+            if n.attr == '__dict__':
+                dyn = True
+            if isinstance(n.ctx, (ast.Store, ast.Del)) and isinstance(n.value, ast.Name):
+                out.add(n.attr)
+        elif isinstance(n, ast.Call):
+            fn = n.func
+            nm = fn.attr if isinstance(fn, ast.Attribute) else fn.id if isinstance(fn, ast.Name) else ''
+            if nm in ('__setattr__', 'setattr'):
+                lit = [a.value for a in n.args if isinstance(a, ast.Constant) and isinstance(a.value, str)]
+                if lit:
+                    out.add(lit[0])
+                else:
+                    dyn = True
+    if out & {'__getattr__', '__getattribute__', '__slots__'} - {'__slots__'}:
+        dyn = True
+    return out, dyn
+
+
+def unknown_self_reads(mnode, known):
+    """[Attribute] reads `self.x` in a method where x is not among `known` (dunder names aside)"""
+    if not mnode.args.args or any(isinstance(d, ast.Name) and d.id == 'staticmethod' for d in mnode.decorator_list):
+        return []
+    me = mnode.args.args[0].arg
+    rebinds = any(isinstance(n, ast.Name) and n.id == me and isinstance(n.ctx, ast.Store) for n in ast.walk(mnode))
+    if rebinds:
+        return []
+    return [x for x in ast.walk(mnode) if isinstance(x, ast.Attribute) and isinstance(x.ctx, ast.Load)
+            and isinstance(x.value, ast.Name) and x.value.id == me and x.attr not in known
+            and not (x.attr.startswith('__') and x.attr.endswith('__'))]
+
+
+POSITIVE_EXAMPLES['unknown_self_reads'] = """
+class A:
+    def __init__(self, key):
+        self.key = key
+
+    def _subset_covariates(self, other):
+        return self.key == other.key
+
+    def check(self, other):
+        return self._subset_covariate(other)
+"""
+_self_test_base_pfo = self_test
+
+
+def self_test():  # noqa: F811
+    ok = _self_test_base_pfo()
+    ok['predicate_falls_off'] = len(predicate_falls_off(ast.parse(POSITIVE_EXAMPLES['predicate_falls_off']).body[0])) == 1
+    c = ast.parse(POSITIVE_EXAMPLES['unknown_self_reads']).body[0]
+    known, dyn = class_names(c)
+    hits = [x.attr for m in c.body for x in unknown_self_reads(m, known)]
+    ok['unknown_self_reads'] = hits == ['_subset_covariate'] and not dyn
+    return ok
+
+
+# ---------------------------------------------------------------- membership test against a collection of iterator objects
+LAZY = {'product', 'zip', 'map', 'filter', 'chain', 'permutations', 'combinations', 'combinations_with_replacement',
+        'islice', 'starmap', 'zip_longest', 'accumulate', 'groupby', 'reversed', 'enumerate', 'iter'}
+
+
+def membership_among_iterators(fnode):
+    """[(append call, compare)]: `c.append(product(..))` (or c[k].append / c.add) and later `x in c` / `x in c[k]`: the
+    collection holds one-shot iterator objects, which compare by identity - the test is False for every x that is not
+    the very same object (`extend` / `update` was meant)"""
+    holders = {}
+    for c in ast.walk(fnode):
+        if isinstance(c, ast.Call) and isinstance(c.func, ast.Attribute) and c.func.attr in ('append', 'add') \
+                and len(c.args) == 1 and isinstance(c.args[0], ast.Call):
+            g = c.args[0].func
+            gname = g.id if isinstance(g, ast.Name) else g.attr if isinstance(g, ast.Attribute) else ''
+            base = c.func.value
+            while isinstance(base, ast.Subscript):
+                base = base.value
+            if gname in LAZY and isinstance(base, ast.Name):
+                holders.setdefault(base.id, c)
+    out = []
+    if holders:
+        for t in ast.walk(fnode):
+            if isinstance(t, ast.Compare) and len(t.ops) == 1 and isinstance(t.ops[0], (ast.In, ast.NotIn)):
+                base = t.comparators[0]
+                while isinstance(base, ast.Subscript):
+                    base = base.value
+                if isinstance(base, ast.Name) and base.id in holders:
+                    out.append((holders[base.id], t))
+    return out
+
+
+POSITIVE_EXAMPLES['membership_among_iterators'] = """
+def subset(lhs_items, rhs_items):
+    lhs, rhs = {}, {}
+    for k, a, b in lhs_items:
+        lhs.setdefault(k, []).append(1)
+        lhs[k].append(product(a, b))
+    for k, a, b in rhs_items:
+        rhs.setdefault(k, [])
+        rhs[k].append(product(a, b))
+    return all(p in lhs[k] for k in rhs for p in rhs[k])
+"""
+_self_test_base_mai = self_test
+
+
+def self_test():  # noqa: F811
+    ok = _self_test_base_mai()
+    ok['membership_among_iterators'] = len(membership_among_iterators(
+        ast.parse(POSITIVE_EXAMPLES['membership_among_iterators']).body[0])) == 1
+    return ok
